@@ -96,6 +96,8 @@ type LeafOpts struct {
 	NoDesc bool
 	// NoShape: do not insist on the mixed > related > alternative nesting.
 	NoShape bool
+	// NoFileCTE: do not compare the transfer encoding of files (only their decoded content).
+	NoFileCTE bool
 }
 
 // CompareLeaves checks the reader's view of a rendered message against the model.
@@ -144,7 +146,7 @@ func CompareLeaves(root *mimeread.Entity, leaves []gen.Leaf, nParts, nEmbeds, nA
 				vs = append(vs, core.V("leaf-charset", "%s: charset %q, expected %q", where, cs, want.Charset))
 			}
 		}
-		if e.CTE != want.CTE {
+		if e.CTE != want.CTE && !(o.NoFileCTE && want.Kind != "part") {
 			vs = append(vs, core.V("leaf-cte", "%s: content-transfer-encoding %q, expected %q", where, e.CTE, want.CTE))
 		}
 		if n := e.Count("Content-Transfer-Encoding"); n != 1 {
@@ -211,7 +213,7 @@ func CompareLeaves(root *mimeread.Entity, leaves []gen.Leaf, nParts, nEmbeds, nA
 			vs = append(vs, core.V("leaf-encoding", "%s: %s", where, p))
 		}
 		exp := want.Content
-		if want.CTE == "quoted-printable" {
+		if e.CTE == "quoted-printable" && want.CTE == "quoted-printable" {
 			exp = CanonLF(exp)
 		}
 		if !bytes.Equal(dec, exp) {
